@@ -20,10 +20,10 @@ def run(ctx):
              "bal, bal+1, 2·bal, MaxInt64, −1, −bal, random, 0} to accounts, new addresses, the DAO and fee-collector accounts; feature-only "
              "MsgUpgrade by owner / others; non-trivial = code 0")
     ctx.assume("the authenticated signer of a gov message is its FromAddress/Address field (C14)")
-    ctx.stream("gov", "c36", DRIVER, n=30000 if ctx.thorough else 1200)
+    ctx.stream("gov", "c36", DRIVER, n=15000 if ctx.thorough else 1200)
     if ctx.thorough:
         for s in range(3):
-            ctx.stream(f"gov-s{s}", "c36", DRIVER, n=15000, seed=ctx.seed * 1000 + 361 + s)
+            ctx.stream(f"gov-s{s}", "c36", DRIVER, n=6000, seed=ctx.seed * 1000 + 361 + s)
 
 
 def search(ctx):
